@@ -2,6 +2,7 @@ import Proofs.C18.Fee
 import Proofs.C18.Float
 import Proofs.C18.Funding
 import Proofs.C18.Amount
+import Model.C18.SpendSize
 /-!
 # C18 — sizes, fees and amounts are exact integer accounting (DESIGN §3 C18)
 
@@ -379,5 +380,30 @@ example : btcFromSats 10000000000 = .ok (1, 2) := by decide
 example : feeRateFromSatsPerVbyte (.fin false 15 (-1)) = .ok 1500 := by decide
 example : feeRateFromSatsPerVbyte (.fin false 1 (-4)) = .error .value := by decide
 example : satsPerVbyte 1500 = (15, -1) := by decide
+
+/-! ## T4 (partial) — the signature sizes the estimate assumes are upper bounds -/
+
+/-- `psbt_size.SIG_SIZE` (72, sighash byte included) bounds every low-s ECDSA signature with
+    r < 2^256, s < 2^255 — and a high-s one can need one byte more, never two. -/
+theorem sig_size_is_upper_bound_partial (r s : Nat) (hr : r < 2 ^ 256) :
+    (s < 2 ^ 255 → ((derSigLen r s + 1 : Nat) : Int) ≤ Gen.Fee.SIG_SIZE) ∧
+    (s < 2 ^ 256 → ((derSigLen r s + 1 : Nat) : Int) ≤ Gen.Fee.SIG_SIZE + 1) := by
+  have hb := natBitLength_le r 256 hr
+  unfold derSigLen derIntLen Gen.Fee.SIG_SIZE
+  constructor
+  · intro hs
+    have := natBitLength_le s 255 hs
+    omega
+  · intro hs
+    have := natBitLength_le s 256 hs
+    omega
+-- FULL T4 (not proved): for each script template, estimated_input_weight ≥ weight of the finalized
+-- input for every signature / key compression, hence estimated_weight ≥ final weight for any mix.
+-- Missing: a model of psbt_size's per-template element lists and of the finalizer's output; the
+-- statement is checked on the real code by the `psbt.estimate` oracle (18 templates, signed txs).
+
+example : derSigLen (2 ^ 256 - 1) (2 ^ 255 - 1) + 1 = 72 := by decide +kernel
+example : derSigLen (2 ^ 256 - 1) (2 ^ 256 - 1) + 1 = 73 := by decide +kernel
+example : derSigLen 1 1 = 8 := by decide
 
 end Props.C18
